@@ -17,6 +17,7 @@ func init() {
 			"C04.2 WrapConnection contract: in every implementation and its buffer-receiving callees, no path that consumed from / wrote to the buffer (or let it escape into PrependToConn) continues to a return of ErrTryAgain or ErrNotTransport (callee summaries: 'mutates only when returning nil error'); " +
 			"C04.3 table and layout agreement: every default prefix has Offset == len(StaticMatch) and MinLen == MaxLen == Offset + tag length (evaluated from the composite literal), tag slices are dominated by the matching length tests, min consumes exactly its tag and prefix exactly Offset + tag; tag lengths agree with the obfuscator header + HMAC size; " +
 			"C04.4 replay: success returns PrependToConn(conn, data); PrependToConn reads the buffered bytes before the live connection; PrefixConn declares only Read (deadlines are promoted from the embedded connection); " +
+			"C04.9 give-up: the handler drains an unidentified connection only under 'no registration for the phantom' or 'no transport left'; C04.10 the candidate registrations are computed from the live table on every connection; " +
 			"C04.5 match bookkeeping: between a nil-error WrapConnection and Proxy every path clears the deadline on the wrapped connection and marks the returned registration active, and Proxy receives the wrapped connection. " +
 			"Decides segmentation-independence structurally (bytes are only ever appended and failures never consume); byte-exact delivery under concrete segmentations and obfs4's framing are not decided.",
 		Assume: []string{"bytes.Buffer and io.MultiReader behave as documented"}})
@@ -183,6 +184,7 @@ func checkC04(c *Ctx) {
 	r.Rule("C04.2", "a transport that answers try-again / not-transport leaves the buffer untouched", 3)
 	r.Rule("C04.3", "prefix table, length thresholds, tag offsets and consumed length agree", 14)
 	r.Rule("C04.4", "success replays the remaining buffered bytes ahead of the live connection", 5)
+	r.Rule("C04.9", "the handler gives up on a connection (drains it) only when no registration or no transport is left", 2)
 	r.Rule("C04.5", "a match clears the deadline on the wrapped connection, marks the registration active and relays the wrapped connection; returned connections support deadlines", 5)
 
 	h := c.fn("C04.1", "cmd/application", "connManager", "handleNewTCPConn")
@@ -383,6 +385,48 @@ func checkC04(c *Ctx) {
 			r.Check(okW, "C04.1", "handleNewTCPConn: every successful Read appends exactly buf[:n] before the transports are consulted", rd.Pos(), fnName(h), "received.Write(buf[:n]) must-pass between Read and WrapConnection",
 				"bytes returned by a successful read do not all reach the accumulation buffer before transports are consulted (wrong slice, or a path that skips the append): the tag of a valid client is never assembled under some segmentations")
 		}
+		// ---- C04.9 the only give-ups before the deadline: nothing registered for the phantom, or every transport said no
+		{
+			conn := ""
+			if len(h.Params) == 4 {
+				conn = pname(h.Params[2])
+			}
+			nDrain := 0
+			eachInstr(h, func(in ssa.Instruction) {
+				ci, ok := in.(ssa.CallInstruction)
+				if !ok {
+					return
+				}
+				cc := ci.Common()
+				isDrain := calleeName(cc) == "io.Copy" && len(cc.Args) == 2 && pathOf(cc.Args[0]) == "io.Discard" && pathOf(cc.Args[1]) == conn
+				if !isDrain {
+					if hf := helperCallee(h, cc); hf != nil {
+						for i, a := range cc.Args {
+							if pathOf(a) == conn && drainsOnly(hf, i) && mustDrain(hf, i) {
+								isDrain = true
+							}
+						}
+					}
+				}
+				if !isDrain {
+					return
+				}
+				nDrain++
+				g := guardedM(h, in, func(cnd string, pol bool) bool {
+					if !pol {
+						return false
+					}
+					empty := strings.HasSuffix(cnd, " < 1)") || strings.HasSuffix(cnd, " == 0)")
+					return empty && (strings.HasPrefix(cnd, "(len(regManager.GetWrappingTransports())") || strings.Contains(cnd, "CountRegistrations("))
+				})
+				r.Check(g, "C04.9", "handleNewTCPConn: giving up (drain to the deadline) only when no registration / no transport is left", in.Pos(), fnName(h),
+					"guarded by CountRegistrations(dst) < 1 or len(possibleTransports) < 1",
+					"the handler stops classifying and drains the connection on a path where registrations exist and transports are still undecided (a read counter, a byte limit, …): a valid first flight that arrives in more pieces than that is never recognised")
+			})
+			if nDrain == 0 {
+				r.Unk("C04.9", "handleNewTCPConn: drain sites", h.Pos(), fnName(h), "no drain of the client connection found")
+			}
+		}
 		// ---- C04.5
 		if wrap != nil {
 			var proxy *ssa.Call
@@ -496,6 +540,8 @@ func checkC04(c *Ctx) {
 		})
 	}
 
+	// ---- C04.10 the registrations offered to the transports are today's
+	checkLiveLookup(c, "C04.10", "a registration that became valid (or was added) after that set was stored is not offered to the transports: the client's flight is not recognised")
 	// ---- C04.2 non-consuming failure
 	memo := map[*ssa.Function]*bufSummary{}
 	for _, f := range wrappingImpls(c) {
@@ -1038,7 +1084,6 @@ func depConnTypesRejectingDeadlines(c *Ctx, ifacePkg string) (bool, string, erro
 	depConnMemo[pkgPath] = [3]string{map[bool]string{true: "1", false: "0"}[bad], which, ""}
 	return bad, which, nil
 }
-
 
 // onlyObservesBuffer: in helper hf, the parameter that receives buf at this call is used only as the receiver of
 // non-mutating bytes.Buffer observers.
